@@ -203,7 +203,7 @@ W_PROVED = {
     'convert_text', 'convert_space', 'convert_parbreak', 'convert_ident', 'convert_expr', 'convert_expr_impl', 'convert_pattern', 'convert_array_item', 'convert_dict_item',
     'convert_param', 'convert_destructuring_item',
     # list-based (through the list engine)
-    'convert_array', 'convert_destructuring', 'convert_params', 'convert_parenthesized_impl',
+    'convert_array', 'convert_destructuring', 'convert_params', 'convert_parenthesized_impl', 'convert_code_block',
     # math
     'convert_math',
     # function calls
@@ -273,6 +273,9 @@ GRAMMAR.update({
     'Destructuring': ['LeftParen', 'RightParen', 'Comma', 'Spread', 'Named', 'Underscore', 'Destructuring'],
     'Params': ['LeftParen', 'RightParen', 'Comma', 'Spread', 'Named', 'Underscore', 'Destructuring'],
     'Parenthesized': ['LeftParen', 'RightParen', 'Underscore', 'Destructuring'],
+    # code blocks: braces around one Code node, whose children are expressions separated by `;` / line breaks
+    'CodeBlock': ['LeftBrace', 'RightBrace', 'Code'],
+    'Code': ['Semicolon'],
     # argument lists (code and math): positional arguments are expressions
     'Args': ['LeftParen', 'RightParen', 'Comma', 'Semicolon', 'Spread', 'Named'],
 })
@@ -430,7 +433,10 @@ def main():
             out.append('    proof { %s reveal_with_fuel(tr, 4); }' % ' '.join('reveal_strlit("%s");' % l for l in lits))
             if fn in W_PROVED:
                 # W: the children that are not items are delimiters, separators and whitespace -- wordless; a `#` introduces an item
-                out.append('    proof { lemma_w_algebra(); lemma_lw_empty(); if unmarked(self.store_s(), %s) { lemma_nonitems_wordless::<ast::%s>(self.store_s(), %s); } }' % (n, ty, n))
+                if fn == 'convert_code_block':
+                    out.append('    proof { lemma_w_algebra(); lemma_lw_empty(); if unmarked(self.store_s(), %s) { lemma_code_block_flat(self.store_s(), %s); } }' % (n, n))
+                else:
+                    out.append('    proof { lemma_w_algebra(); lemma_lw_empty(); if unmarked(self.store_s(), %s) { lemma_nonitems_wordless::<ast::%s>(self.store_s(), %s); } }' % (n, ty, n))
                 out.append('    proof {')
                 out.append('        let e = Seq::<Seq<char>>::empty();')
                 out.append('        assert forall|s: Seq<Seq<char>>| #[trigger] (e + s + e) == s by { assert(e + s + e =~= s); }')
